@@ -19,7 +19,7 @@ verus! {
 //@struct gneiss-mqtt/src/mqtt/mod.rs AuthPacket
 //@struct gneiss-mqtt/src/mqtt/mod.rs ConnackPacket defaultspec
 //@struct gneiss-mqtt/src/mqtt/mod.rs ConnectPacket
-//@struct gneiss-mqtt/src/mqtt/mod.rs DisconnectPacket
+//@struct gneiss-mqtt/src/mqtt/mod.rs DisconnectPacket defaultspec
 //@struct gneiss-mqtt/src/mqtt/mod.rs PingreqPacket
 //@struct gneiss-mqtt/src/mqtt/mod.rs PingrespPacket
 //@struct gneiss-mqtt/src/mqtt/mod.rs PubackPacket defaultspec
@@ -29,7 +29,7 @@ verus! {
 //@struct gneiss-mqtt/src/mqtt/mod.rs PubrelPacket defaultspec
 //@struct gneiss-mqtt/src/mqtt/mod.rs SubackPacket defaultspec
 //@struct gneiss-mqtt/src/mqtt/mod.rs SubscribePacket
-//@struct gneiss-mqtt/src/mqtt/mod.rs UnsubackPacket
+//@struct gneiss-mqtt/src/mqtt/mod.rs UnsubackPacket defaultspec
 //@struct gneiss-mqtt/src/mqtt/mod.rs UnsubscribePacket
 //@enum gneiss-mqtt/src/mqtt/mod.rs MqttPacket
 } // verus!
